@@ -5,7 +5,8 @@ Definition sortz (l : list Z) : list Z := fold_right ins [] l.
 Definition v_state (s : st) : V :=
   VL [match lockdir s with None => VZ (-1) | Some l => VL (map VZ (sortz l)) end; VZ (enc_opt (pin s)); VZ (enc_opt (att s));
       VL (map (fun p => let c := pc_code (p_pc p) in
-                     VL [VZ c; VZ (if c =? 16 then 0 else p_eth p); VZ (if c =? 16 then -1 else p_table p)]) (procs s))].
+                     (* the ethertype of an aborted participant, and of one that is still trying candidates, is not part of the state compared *)
+                     VL [VZ c; VZ (if (c =? 16) || (c =? 2) then 0 else p_eth p); VZ (if c =? 16 then -1 else p_table p)]) (procs s))].
 (* schedule entries (participant, ethertype drawn at this step or -1): take the successor in which the participant has that ethertype *)
 Fixpoint run_eth (s : st) (sched : list (nat * Z)) : st :=
   match sched with
